@@ -1126,10 +1126,10 @@ def main():
         for k, v in st["hist"].items():
             total["hist"][k] = total["hist"].get(k, 0) + v
         if tier == "quick":
-            plan = {"sets": (4, 700), "c01sets": (4, 40), "tagged": (1, 1500), "hist": (4, 750), "stale": (2, 300)}
-            procs = 4
+            plan = {"sets": (4, 700), "c01sets": (4, 30), "tagged": (1, 1500), "hist": (4, 750), "stale": (2, 300)}
+            procs = min(8, os.cpu_count() or 4)
         else:
-            plan = {"sets": (16, 15000), "c01sets": (16, 300), "tagged": (4, 10000), "hist": (32, 12000), "stale": (8, 6000)}
+            plan = {"sets": (16, 10000), "c01sets": (16, 300), "tagged": (4, 10000), "hist": (32, 9000), "stale": (8, 6000)}
             procs = min(16, os.cpu_count() or 4)
         jobs = [("small", "0", 0, tier)]
         jobs += [("smallhist", str(k), 4 if tier == "quick" else 5, tier) for k in range(len(SMALL_ALPHABET))]
